@@ -984,6 +984,15 @@ func tupleTypes(t *types.Tuple) []types.Type {
 // applyContractRaw is applyContract without an ssa.Function (interface methods).
 func (x *Exec) applyContractRaw(s *State, in ssa.Instruction, callee string, sig *types.Signature, fc *FuncContract, pn []string, pt []types.Type, args []Val, k callCont) {
 	x.contractsUsed[callee] = true
+	var ipkg *types.Package
+	if len(pt) > 0 {
+		if n, ok := pt[0].(*types.Named); ok {
+			ipkg = n.Obj().Pkg()
+		}
+	}
+	if ipkg == nil || !x.eng.inRepo(ipkg) {
+		ipkg = pkgOf(s.top().fn)
+	}
 	env := map[string]Val{}
 	for i, n := range pn {
 		if i < len(args) {
@@ -995,7 +1004,7 @@ func (x *Exec) applyContractRaw(s *State, in ssa.Instruction, callee string, sig
 		}
 	}
 	site := x.siteName(s, in)
-	pre := &SpecEnv{x: x, s: s, names: env}
+	pre := &SpecEnv{x: x, s: s, names: env, fnPkg: ipkg}
 	for _, rq := range fc.Requires {
 		t, err := pre.boolExpr(rq.E)
 		if err != nil {
@@ -1033,7 +1042,7 @@ func (x *Exec) applyContractRaw(s *State, in ssa.Instruction, callee string, sig
 	}
 	rs := sig.Results()
 	var results []Val
-	post := &SpecEnv{x: x, s: s, names: map[string]Val{}}
+	post := &SpecEnv{x: x, s: s, names: map[string]Val{}, fnPkg: ipkg}
 	for n, v := range env {
 		post.names[n] = v
 	}
@@ -1054,7 +1063,7 @@ func (x *Exec) applyContractRaw(s *State, in ssa.Instruction, callee string, sig
 		}
 		post.names[n] = results[i]
 	}
-	post.old = &SpecEnv{x: x, s: s, names: env, heap: oldHeap, alloc: oldAlloc}
+	post.old = &SpecEnv{x: x, s: s, names: env, heap: oldHeap, alloc: oldAlloc, fnPkg: ipkg}
 	post.entryAlloc = oldAlloc
 	for _, en := range fc.Ensures {
 		t, err := post.boolExpr(en.E)
